@@ -117,7 +117,9 @@ class Table:
         """Resolve `dunder` on `cls` through the MRO; emit slot= token; -> (sid, attribute) or None"""
         for k in cls.__mro__:
             if dunder in k.__dict__:
-                key = (k, dunder)
+                # object.__ne__ delegates to the class's own __eq__: per class it behaves like that method
+                derived_ne = k is object and dunder == "__ne__"
+                key = (k, dunder, cls if derived_ne else None)
                 new = key not in self.slots
                 if new:
                     self.slots[key] = 100 + len(self.slots)
@@ -125,6 +127,8 @@ class Table:
                 attr = k.__dict__[dunder]
                 sq = k in SEQ_TYPES and dunder in SQ_DUNDERS
                 if type(attr).__name__ == "function" or attr is None:
+                    foreign = "b"
+                elif derived_ne and type(getattr(cls, "__eq__", None)).__name__ == "function":
                     foreign = "b"
                 else:
                     foreign = "s"
